@@ -22,6 +22,10 @@ OPS = ("rows-yield", "rows-continue", "rows-raise", "validate", "writer", "reade
 BASELINE_OP = {"unused-reader-dropped-midrun": "reader-late"}
 
 
+class HarnessOutOfDate(BaseException):
+    """raised when the white-box part of this harness no longer matches the implementation (reported as exit 3)"""
+
+
 def inject(cid, has_a, has_b, la, lb, ca, cb):
     """put the checks of `cid` into an arbitrary state satisfying their representation invariant"""
     from cutplace import errors
@@ -41,6 +45,11 @@ def inject(cid, has_a, has_b, la, lb, ca, cb):
         loc._line = lb
         m[("b",)] = loc
         d["b"] = cb
+    # the injection writes the attributes the checks keep their state in; if the implementation no longer has them the
+    # injected state would go nowhere and the step would be vacuous: a harness error, never a silent pass
+    if not hasattr(uniq, "_row_key_to_location_map") or not hasattr(dist, "_distinct_value_to_count_map"):
+        raise HarnessOutOfDate("IsUniqueCheck._row_key_to_location_map / DistinctCountCheck._distinct_value_to_count_map not found: "
+                               "the representation of check state changed, props/c08.py inject() must follow it")
     uniq._row_key_to_location_map = m
     dist._distinct_value_to_count_map = d
 
